@@ -917,7 +917,39 @@ def ec_job(job):
                 recs.append({"kind": "ec", "group": gname, "ver": ver[1], "cls": cls, "share": L(share), "cl": cl,
                              "p": L(pb), "formats": list(fmts), "oncurve": oc, "parity": par, "v": acc, "exc": exc,
                              "proper": proper})
+                if ver == (3, 3):
+                    # the same share as the point of a ServerKeyExchange met by the TLS <= 1.2 client code
+                    # (AECDHKeyExchange.processServerKeyExchange): the formats are those both hellos list
+                    accm, excm, properm = ske_point_case(gid, share, fmts)
+                    recs.append({"kind": "ec", "group": gname, "ver": ver[1], "cls": "ske:" + cls, "share": L(share), "cl": cl,
+                                 "p": L(pb), "formats": list(fmts), "oncurve": oc, "parity": par, "v": accm, "exc": excm,
+                                 "proper": properm})
     return recs
+
+
+def ske_point_case(gid, share, fmts):
+    from tlslite.keyexchange import AECDHKeyExchange
+    from tlslite.messages import ClientHello, ServerHello, ServerKeyExchange
+    from tlslite.extensions import ECPointFormatsExtension, SupportedGroupsExtension
+    from tlslite.constants import CipherSuite, ECPointFormat, ECCurveType
+    from tlslite.errors import TLSIllegalParameterException, TLSDecodeError
+    suite = CipherSuite.TLS_ECDHE_RSA_WITH_AES_128_GCM_SHA256
+    codes = [{"uncompressed": ECPointFormat.uncompressed, "compressed": ECPointFormat.ansiX962_compressed_prime}[f] for f in fmts]
+    # the client lists the compressed format first where it offers it (the order must not matter)
+    ch = ClientHello().create((3, 3), bytearray(32), bytearray(0), [suite],
+                              extensions=[ECPointFormatsExtension().create(list(reversed(codes))),
+                                          SupportedGroupsExtension().create([gid])])
+    sh = ServerHello().create((3, 3), bytearray(32), bytearray(0), suite,
+                              extensions=[ECPointFormatsExtension().create(list(codes))])
+    ske = ServerKeyExchange(suite, (3, 3)).createECDH(ECCurveType.named_curve, named_curve=gid, point=bytearray(share))
+    kex = AECDHKeyExchange(suite, ch, sh, [gid])
+    try:
+        kex.processServerKeyExchange(None, ske)
+        return True, "", True
+    except (TLSIllegalParameterException, TLSDecodeError) as e:
+        return False, type(e).__name__, True
+    except Exception as e:     # noqa - judged by the caller
+        return False, type(e).__name__, False
 
 
 X25519_LOW = [   # points of low order (RFC 7748 section 6 / cr.yp.to/ecdh.html), little-endian
